@@ -107,12 +107,16 @@ Definition g_trunc (x : fl) : res fl :=
   else if fge (g_abs x) g_limit then Ok x
   else g_trunc_int x.
 
-(* find_whole: llint; floor_check(x) is evaluated up to three times with the same result *)
+(* find_whole: llint; floor_check(x) is evaluated up to three times with the same result
+   (no longer used by round; still used by gcem tgamma / pow, outside the exact set) *)
 Definition g_find_whole (x : fl) : res Z :=
   rbind (g_floor x) (fun f =>
     if fge (g_abs (fsub x f)) f_half then to_sint 64 (fadd f (of_Z (g_sgn x)))
     else to_sint 64 f).
-Definition g_round_int (x : fl) : res fl := rbind (g_find_whole x) (fun w => Ok (of_Z w)).
+(* round_int (after 1802224): floor(x) + sgn(x) is computed in T, no conversion to llint *)
+Definition g_round_int (x : fl) : res fl :=
+  rbind (g_floor x) (fun f =>
+    Ok (if fge (g_abs (fsub x f)) f_half then fadd f (of_Z (g_sgn x)) else f)).
 Definition g_round (x : fl) : res fl :=
   if g_is_nan x then Ok f_nan
   else if negb (g_is_finite x) then Ok x
@@ -277,3 +281,13 @@ Definition dec80 (s : bool) (m : Z) (e : Z) : b80 :=
   else if m =? 0 then B754_zero s
   else binary_normalize 64 16384 p80 pe80 mode_NE (if s then - m else m)
          ((if e =? 0 then 1 else e) - 16383 - 63) s.
+(* bit_cast of an x87 extended value back to (sign, significand, biased exponent); the single NaN
+   becomes the default quiet NaN (positive, significand 0xC000000000000000) *)
+Definition enc80 (x : b80) : bool * (Z * Z) :=
+  match x with
+  | B754_zero s => (s, (0, 0))
+  | B754_infinity s => (s, (2 ^ 63, 32767))
+  | B754_nan => (false, (2 ^ 63 + 2 ^ 62, 32767))
+  | B754_finite s m e _ =>
+      if Zpos m <? 2 ^ 63 then (s, (Zpos m, 0)) else (s, (Zpos m, e + 16383 + 63))
+  end.
